@@ -86,7 +86,7 @@ fn execute(ctx: &Ctx, c: &Cfg) -> Obs {
     }
     _ => {}
   }
-  let tname = if c.name { "re.named.v1.2" } else { "content" }; // a name with dots: `<name>.torrent` must keep all of it
+  let tname = if c.name { if c.dry == c.force { "re.named.v1.2" } else { "album.torrent" } } else { "content" }; // names with dots, one of them ending in `.torrent`: the output is `<name>.torrent` with the whole name, never the name itself
   // output target
   let (out_arg, final_rel): (Option<String>, Option<String>) = match c.output {
     "default" => (None, Some(format!("in/{tname}.torrent"))),
